@@ -362,6 +362,23 @@ def check_containers(case, ctx):
             raise Violation(f"ts.downsample:raised:{type(exc).__name__}", f"{case} {m}: {exc!r}") from exc
         ref = reduce_ref(x.reshape(1, n), 1, f, m).reshape(-1)
         close_int_or_float(ds.data, ref, "float32", "ts.downsample", f"n={n} f={f} {m}", amax)
+    # the two in a row: the decimated series de-reddened with a window given in seconds - its width in bins follows from the
+    # decimated sampling interval (tsamp * factor), whether or not a remainder was dropped
+    if n // f >= 2:
+        ds = ts.downsample(f)
+        w2 = 1 + (wb - 1) % max(1, 2 * (n // f))
+        win2 = w2 * tsamp * f
+        if round(win2 / (tsamp * f)) == w2:
+            try:
+                dd = ds.deredden(method=method, window=win2)
+            except Exception as exc:  # noqa: BLE001
+                raise Violation(f"downsample.deredden:raised:{type(exc).__name__}", f"{case}: {exc!r}") from exc
+            y = np.asarray(ds.data)
+            refs2 = [y.astype(np.float64) - oracles.running_window(y, w2, method, "left")]
+            if w2 % 2 == 0:
+                refs2.append(y.astype(np.float64) - oracles.running_window(y, w2, method, "right"))
+            if dd.data.shape != y.shape or not any(np.all(np.abs(dd.data.astype(np.float64) - r) <= 2e-4 * (float(np.abs(y).max()) + 1e-30)) for r in refs2):
+                raise Violation("downsample.deredden:values", f"{case}: a {w2}-bin window on the series decimated by {f} (given as {win2!r} s) was not the width used")
     # FilterbankBlock.downsample
     b = rng.normal(0, 10, (nch, n)).astype(np.float32)
     bh = Header(filename="b.fil", data_type="filterbank", nchans=nch, foff=-1.0, fch1=1400.0, nbits=32, tsamp=tsamp,
